@@ -25,6 +25,11 @@ theorem syscall_decoders_have_shape :
     decoders.all (fun d => (!((d.kind == 0 || d.kind == 1) && d.supported) || d.shape.isSome)
                            && (!(d.family == 0) || d.kind == 0)) = true := by decide +kernel
 
+/-- Every BSD syscall / Mach trap decoder was translated (none is outside the IR subset), so the facts
+    below cover all of them. -/
+theorem syscalls_translated :
+    decoders.all (fun d => !(d.kind == 0 || d.kind == 1) || d.supported) = true := by decide +kernel
+
 /-- No piece of any call part reads the END record, a result string or a context table. -/
 theorem all_calls_read_start_only : decoders.all callReadsStartOnly = true := by decide +kernel
 
